@@ -191,6 +191,9 @@ def check_stale_loop_variables(run, A, module_prefixes, rule='R-STALE'):
     return n
 
 
+ROLE_WORDS = ('noise', 'target')
+
+
 def check_argument_names(run, A, module_prefixes, rule='R-ARGNAME'):
     """a variable that carries the name of parameter q of the callee is not handed over as a different parameter p of the same callee
     (`f(target_psd_matrix=noise_psd_matrix)`, or the two swapped positionally): 246 name-to-parameter bindings of the reference tree, none crossed"""
@@ -240,6 +243,13 @@ def check_argument_names(run, A, module_prefixes, rule='R-ARGNAME'):
             for k in c.keywords:
                 if k.arg and isinstance(k.value, ast.Name):
                     bound[k.arg] = k.value.id
+            # role words: a variable that carries a role word (noise / target) goes to the parameter of the callee that carries the same word, when there is one
+            for p, v in sorted(bound.items()):
+                for w in ROLE_WORDS:
+                    if w in v.lower() and w not in p.lower() and any(w in q.lower() for q in allp) and not any(w2 in v.lower() and w2 in p.lower() for w2 in ROLE_WORDS):
+                        run.violation(rule, f'{fn.qual.split("::")[1]} -> {cal.name}: `{v}` passed as `{p}`', fn.loc(c),
+                                      f'`{norm_stmt(c)[:100]}`: the {w} quantity `{v}` is handed over as parameter `{p}` although {cal.name} has a {w} parameter '
+                                      f'({sorted(q for q in allp if w in q.lower())}) (roles crossed?)', construct=f'{rule}::{fn.qual}::{cal.qual}::{p}<-{v}::role')
             for p, v in sorted(bound.items()):
                 n += 1
                 if v != p and v in allp:
@@ -332,6 +342,10 @@ def check_layout_dependent_flatten(run, A, module_prefixes, rule='R-ELL'):
     return n
 
 
+NONE_ARRAY_ARG = ('transpose', 'swapaxes', 'moveaxis', 'reshape', 'mean', 'amax', 'amin', 'max', 'min', 'exp', 'log', 'sqrt', 'conj', 'real', 'linalg.norm', 'norm', 'squeeze',
+                  'expand_dims', 'broadcast_to', 'asarray', 'array', 'copy', 'where', 'clip', 'minimum', 'multiply', 'divide', 'add', 'subtract', 'matmul', 'dot', 'trace', 'diff')
+
+
 def check_none_use(run, A, module_prefixes, rule='R-NONE'):
     """inside the branch where `x is None` holds, x is not used as a value: indexing it, arithmetic with it or handing it to einsum raises a
     TypeError on exactly the inputs that take this branch (a flipped `is None` / `is not None` passes every test that never takes it)"""
@@ -358,6 +372,11 @@ def check_none_use(run, A, module_prefixes, rule='R-NONE'):
                 elif t.op == 'attr' and is_none_value(t.args[0]) and t.args[1] not in ('__class__',):
                     bad = t
                 elif t.op == 'call' and is_call_to(t, 'numpy.einsum', 'numpy.sum', 'numpy.maximum', 'numpy.abs') and any(is_none_value(a) for a in call_parts(t)[1]):
+                    bad = t
+                elif t.op == 'call' and (call_parts(t)[0] or '').startswith('numpy.') and call_parts(t)[1] and is_none_value(call_parts(t)[1][0]) \
+                        and (call_parts(t)[0] or '').split('.')[-1] in NONE_ARRAY_ARG:
+                    bad = t          # the array argument of an array function: np.transpose(None) is a 0-d object array, not an error - and not the data either
+                elif t.op == 'call' and is_call_to(t, 'method:apply_mapping', 'method:calculate_mapping') and any(is_none_value(a) for a in call_parts(t)[1][1:]):
                     bad = t
                 if t.op in ('binop', 'iop', 'sub', 'attr'):
                     n += 1
